@@ -145,6 +145,58 @@ Theorem disjunction_as_options_preserves_WT_on_derived_options : forall ss root 
 Proof. exact disjunction_as_options_derived_wt. Qed.
 Print Assumptions disjunction_as_options_preserves_WT_on_derived_options.
 
+(* ---------------------------------------------------------------- all 22 rules, each where its condition holds *)
+(* `run_checked` (Model/VeneersSpec.v) says that every rule of the run is applied where the condition it does
+   not check holds, evaluated on the builders as they are when the rule is applied (`brule_cond`, `orule_cond`):
+     - the 12 rules of `wt_safe_rules`: nothing (add_option / add_assignment: well-formed parameters);
+     - merge_into: `merge_target_checked`; compose: `compose_checked` (the mapped path ends in an `any`, the
+       composable builds a struct directly, its constants use no argument; no `__schema_entrypoint`);
+     - promote_options_to_constructor: `promote_checked` (the promoted assignment uses no other argument);
+     - struct_fields_as_options / _as_arguments: the action is a no-op on the option, or `sfa_checked` (the path
+       ends in the argument's struct, not an array of it; no index argument; distinct field names; the other
+       assignments do not use the first argument);
+     - array_to_append, map_to_index, rename_arguments, unfold_boolean, disjunction_as_options (argument 0, a
+       disjunction type): no-op, or the option has the shape FromAST derives (without constraint for the first three).
+   Then, for ALL schema sets, builder sets, rule files and languages, the rewritten builders are well-typed. *)
+Theorem rules_preserve_WT_where_checked : forall ss files lang bs lrs bs',
+  rewriter_from files = Ok lrs -> run_checked ss lrs lang bs ->
+  consistent_with ss bs -> WTs ss bs = true ->
+  apply_to ss files lang bs = Ok bs' -> WTs ss bs' = true.
+Proof. exact rules_preserve_WT_where_checked_proof. Qed.
+Print Assumptions rules_preserve_WT_where_checked.
+
+(* the single steps it is made of *)
+Theorem builder_rule_preserves_WT_where_checked : forall ss r bs bs',
+  brule_cond ss r bs -> apply_builder_rule ss r bs = Ok bs' ->
+  consistent_with ss bs -> Forall (fun b => WT ss b = true) bs -> consistent_with ss bs' /\ Forall (fun b => WT ss b = true) bs'.
+Proof. exact brule_cond_wt. Qed.
+Print Assumptions builder_rule_preserves_WT_where_checked.
+Theorem option_rule_preserves_WT_where_checked : forall ss r bs bs',
+  orule_cond ss r bs -> apply_option_rule ss r bs = Ok bs' ->
+  consistent_with ss bs -> Forall (fun b => WT ss b = true) bs -> consistent_with ss bs' /\ Forall (fun b => WT ss b = true) bs'.
+Proof. exact orule_cond_wt. Qed.
+Print Assumptions option_rule_preserves_WT_where_checked.
+(* the safe group needs nothing *)
+Theorem safe_rules_are_checked : (forall ss r bs, wt_safe_brule r = true -> brule_cond ss r bs) /\
+                                 (forall ss act b o, wt_safe_action act = true -> action_cond ss act b o).
+Proof. exact (conj wt_safe_brule_cond wt_safe_action_cond). Qed.
+Print Assumptions safe_rules_are_checked.
+
+(* each condition dropped: a run of the model that breaks WT (all are fixed cases of the correspondence;
+   findings C17-merge-compose-unchecked-target and C17-rules-assume-derived-shape) *)
+Theorem compose_unchecked_breaks_WT : wt_witness_on w_schemas_compose w_before_compose w_files_compose = true.
+Proof. exact wt_witness_compose. Qed.
+Print Assumptions compose_unchecked_breaks_WT.
+Theorem promote_unchecked_breaks_WT : wt_witness w_files_promote = true.
+Proof. exact wt_witness_promote. Qed.
+Print Assumptions promote_unchecked_breaks_WT.
+Theorem struct_fields_as_options_unchecked_breaks_WT : wt_witness_on w_schemas_sub w_before_sub (w_files_sfa true) = true.
+Proof. exact wt_witness_sfa_options. Qed.
+Print Assumptions struct_fields_as_options_unchecked_breaks_WT.
+Theorem struct_fields_as_arguments_unchecked_breaks_WT : wt_witness_on w_schemas_sub w_before_sub (w_files_sfa false) = true.
+Proof. exact wt_witness_sfa_arguments. Qed.
+Print Assumptions struct_fields_as_arguments_unchecked_breaks_WT.
+
 (* ================================================================ paths *)
 (* Path.Append keeps both operands, for a prefix of ANY length k (induction on k): the first k items
    are the prefix, the suffix follows unchanged, the result ends where the suffix ends *)
